@@ -7,8 +7,10 @@ import (
 	"net/url"
 	"strings"
 
+	"github.com/freeconf/yang/meta"
 	"github.com/freeconf/yang/node"
 	"github.com/freeconf/yang/nodeutil"
+	"github.com/freeconf/yang/parser"
 
 	"verif/core"
 	"verif/dp"
@@ -805,7 +807,46 @@ func (p c13) setValues(e *c13env) {
 
 // selectionOps: every operation of a selection on every kind of selection (root, container, list, entry, leaf, leaf-list), also one
 // obtained with request parameters that hide part of what the payload names. Errors are fine, crashes are not.
+var c13ListRootModule *meta.Module
+
+// listRoots: a list node made with the public constructor that takes no change callback (the node of a list a caller keeps itself)
+func (p c13) listRoots(e *c13env) {
+	if c13ListRootModule == nil {
+		m, err := parser.LoadModuleFromString(nil, `module lr { namespace "urn:lr"; prefix lr; list l { key k; leaf k { type string; } leaf v { type string; } } }`)
+		if err != nil {
+			e.c.Violate("harness/list-root-module", "%v", err)
+			return
+		}
+		c13ListRootModule = m
+	}
+	type item struct{ K, V string }
+	for _, op := range []string{"delete", "upsert", "read"} {
+		rows := []*item{{"a", "1"}, {"b", "2"}, {"c", "3"}}
+		root := &nodeutil.Basic{OnChild: func(r node.ChildRequest) (node.Node, error) { return nodeutil.ReflectList(rows), nil }}
+		b := node.NewBrowser(c13ListRootModule, root)
+		e.try("selection-op", op+"-under-ReflectList", "l=b on a list made with nodeutil.ReflectList(rows)", true, func() error {
+			switch op {
+			case "delete":
+				sel, err := b.Root().Find("l=b")
+				if err != nil || sel == nil {
+					return fmt.Errorf("find: %v", err)
+				}
+				return sel.Delete()
+			case "upsert":
+				n, err := nodeutil.ReadJSON(`{"l":[{"k":"z","v":"9"}]}`)
+				if err != nil {
+					return err
+				}
+				return b.Root().UpsertFrom(n)
+			}
+			_, err := nodeutil.WriteJSON(b.Root())
+			return err
+		})
+	}
+}
+
 func (p c13) selectionOps(e *c13env, leafPaths []string) {
+	p.listRoots(e)
 	targets := []string{""}
 	for _, ap := range e.t.AllPaths() {
 		if plainKeys(ap) {
